@@ -129,6 +129,7 @@ type Obl struct {
 	Tier    string
 	Timeout int
 	ExpectSat bool // vacuity/cover check: expected sat
+	Raw     string // lemma: raw SMT body (asserts incl. the negated goal)
 	// filled by solver
 	Result  string
 	Solver  string
@@ -173,6 +174,8 @@ type VC struct {
 	initDone map[*ssa.Package]bool
 	inInit int
 	bitsMemo map[string]string
+	final []finalRoot
+	decls []string // self-contained declarations, emitted before every context line
 }
 
 func (vc *VC) fresh(prefix string) string {
@@ -402,10 +405,7 @@ func (vc *VC) memTerm(st *State, elem types.Type) string {
 
 // prependDecl inserts a declaration at the very start of the context (valid for every obligation).
 func (vc *VC) prependDecl(line string) {
-	vc.lines = append([]string{line}, vc.lines...)
-	for _, o := range vc.obls {
-		o.Prefix++
-	}
+	vc.decls = append(vc.decls, line)
 }
 
 func (vc *VC) ghostTerm(st *State, name, sort, init string) string {
